@@ -524,6 +524,15 @@ func (f *Firewall) inConns(fp firewall.Packet, h *HostInfo, caPool *cert.CAPool,
 		return false
 	}
 
+	// The timer wheel only advances when connections are added or re-queued, so an
+	// idle connection can still be in the map long after its timeout. Honor the
+	// timeout here rather than relying on eviction having caught up.
+	if !c.Expires.After(time.Now()) {
+		delete(conntrack.Conns, fp)
+		conntrack.Unlock()
+		return false
+	}
+
 	if c.rulesVersion != f.rulesVersion {
 		// This conntrack entry was for an older rule set, validate
 		// it still passes with the current rule set
